@@ -445,8 +445,183 @@ fn explore(ctx: &Ctx, report: &mut Report, n: u8, ops: &[Op], depth: usize) {
     report.nontrivial += nt;
 }
 
+// ---------------------------------------------------------------------------------------
+// Family H: the swarm as it is deployed — every replica is held open by its node's store actor
+// for the whole history (writes, deliveries and the messages of all sessions go through the
+// `SyncHandle`), so whatever an open replica keeps between operations is in play.
+// ---------------------------------------------------------------------------------------
+
+#[derive(Debug, Clone, Copy, PartialEq, Eq, Serialize, Deserialize)]
+pub enum HEv {
+    /// node r writes key k1 / k2 / the prefix-related k1x
+    W(u8, u8),
+    /// a complete session i -> j
+    S(u8, u8),
+}
+
+const HKEYS: [&[u8]; 3] = [b"k1", b"k2", b"k1x"];
+
+fn h_session(hs: &[iroh_docs::actor::SyncHandle], i: usize, j: usize) -> Result<usize, String> {
+    use crate::sut::block_on_park;
+    let ns = ns_id(0);
+    let peer = |r: usize| [0x60 + r as u8; 32];
+    let mut st = [iroh_docs::SyncOutcome::default(), iroh_docs::SyncOutcome::default()];
+    let mut msg = Some(block_on_park(hs[i].sync_initial_message(ns)).map_err(|e| format!("initial: {e:#}"))?);
+    let mut to_j = true;
+    let mut rounds = 0;
+    while let Some(m) = msg.take() {
+        rounds += 1;
+        if rounds > 60 {
+            return Err("no termination within 60 messages".into());
+        }
+        let (at, from, slot) = if to_j { (j, peer(i), 1) } else { (i, peer(j), 0) };
+        let (reply, s2) = block_on_park(hs[at].sync_process_message(ns, m, from, std::mem::take(&mut st[slot]))).map_err(|e| format!("process: {e:#}"))?;
+        st[slot] = s2;
+        msg = reply;
+        to_j = !to_j;
+    }
+    Ok(st[0].num_recv + st[0].num_sent + st[1].num_recv + st[1].num_sent)
+}
+
+/// Runs the history on three actor-held replicas, then the closing phase along `topo`.
+fn actor_swarm(hist: &[HEv], topo: &[(u8, u8)]) -> Bad {
+    use crate::sut::{block_on_park, handle_dump};
+    use iroh_docs::actor::{OpenOpts, SyncHandle};
+    let ns = ns_id(0);
+    let mut bad: Bad = vec![];
+    set_clock(NOW);
+    let hs: Vec<SyncHandle> = (0..3)
+        .map(|r| {
+            let mut store = iroh_docs::store::Store::memory();
+            store.import_namespace(iroh_docs::Capability::Write(crate::universe::ns_secret(0))).expect("import");
+            store.import_author(author(author_of(r))).expect("author");
+            let h = SyncHandle::spawn(store, None, format!("c04-{r}"));
+            block_on_park(h.open(ns, OpenOpts::default().sync())).expect("open");
+            h
+        })
+        .collect();
+    let mut written: Vec<SignedEntry> = vec![];
+    for (step, ev) in hist.iter().enumerate() {
+        match *ev {
+            HEv::W(r, k) => {
+                let ts = 10 + step as u64;
+                let spec = Spec::new(0, author_of(r), HKEYS[k as usize], ts, Val::X);
+                set_clock(T0 + ts);
+                let (hash, len) = Val::X.hash_len();
+                let res = block_on_park(hs[r as usize].insert_local(ns, author(author_of(r)).id(), bytes::Bytes::copy_from_slice(HKEYS[k as usize]), hash, len));
+                set_clock(NOW);
+                if res.is_ok() {
+                    written.push(spec.signed());
+                }
+            }
+            HEv::S(i, j) => {
+                if let Err(e) = h_session(&hs, i as usize, j as usize) {
+                    bad.push(("session_returns_ok", json!({"actor_held": true}), format!("session {i}->{j}: {e}")));
+                }
+            }
+        }
+    }
+    let want = ModelReplica::spec(&written).dump();
+    // closing phase
+    let mut quiet = false;
+    for _pass in 0..4 {
+        let mut moved = 0;
+        for (i, j) in topo {
+            match h_session(&hs, *i as usize, *j as usize) {
+                Ok(n) => moved += n,
+                Err(e) => bad.push(("session_returns_ok", json!({"actor_held": true, "closing": true}), format!("closing session {i}->{j}: {e}"))),
+            }
+        }
+        if moved == 0 {
+            quiet = true;
+            break;
+        }
+    }
+    if !quiet {
+        bad.push(("closing_phase_terminates", json!({"actor_held": true}), "sessions still transfer entries after 4 passes over 3 replicas".into()));
+    }
+    for (r, h) in hs.iter().enumerate() {
+        match block_on_park(handle_dump(h, ns)) {
+            Ok(d) if d == want => {}
+            Ok(d) => bad.push((
+                "converges_to_merge_of_local_writes",
+                json!({"actor_held": true, "replica": r, "missing": want.iter().filter(|e| !d.contains(e)).count(), "surplus": d.iter().filter(|e| !want.contains(e)).count()}),
+                format!("replicas held open by their store actors, closing sessions along {topo:?}: replica {r} holds {} but the merge of all local writes is {}", show_entries(&d), show_entries(&want)),
+            )),
+            Err(e) => bad.push(("session_returns_ok", json!({"actor_held": true}), format!("dump of replica {r}: {e}"))),
+        }
+    }
+    for h in hs {
+        let _ = block_on_park(h.shutdown());
+    }
+    bad
+}
+
+fn h_topologies() -> Vec<Vec<(u8, u8)>> {
+    vec![
+        vec![(0, 1), (1, 2)],
+        vec![(0, 1), (0, 2)],
+        vec![(2, 1), (1, 0)],
+        vec![(0, 1), (0, 2), (1, 2), (1, 0), (2, 0), (2, 1)],
+    ]
+}
+
+fn run_actor_swarm(ctx: &Ctx, report: &mut Report) {
+    let mut evs: Vec<HEv> = vec![];
+    for r in 0..3u8 {
+        for k in 0..2u8 {
+            evs.push(HEv::W(r, k));
+        }
+    }
+    evs.push(HEv::W(0, 2));
+    for i in 0..3u8 {
+        for j in 0..3u8 {
+            if i != j {
+                evs.push(HEv::S(i, j));
+            }
+        }
+    }
+    let full_depth = if ctx.quick() { 3 } else { 4 };
+    let mut ordinal = 1u64 << 42;
+    for depth in 1..=full_depth + 1 {
+        crate::util::for_each_sequence(evs.len(), depth, |ix| {
+            let hist: Vec<HEv> = ix.iter().map(|&i| evs[i]).collect();
+            let writes = hist.iter().filter(|e| matches!(e, HEv::W(..))).count();
+            if depth > full_depth && writes != 2 {
+                // one step deeper: the histories with exactly two writes (in every arrangement)
+                return;
+            }
+            if writes == 0 {
+                return;
+            }
+            ordinal += 1;
+            if !ctx.mine(ordinal) {
+                return;
+            }
+            for topo in h_topologies() {
+                report.evaluations += 1;
+                report.traces += 1;
+                report.transitions += hist.len() as u64 + topo.len() as u64;
+                report.nontrivial += 1;
+                report.count("actor_held_histories", 1);
+                let case = json!({"actor_held": {"hist": hist, "topology": topo}});
+                let _watch = crate::util::watch::enter_secs("actor-held swarm history incl. closing phase", case.clone(), 120);
+                match catch(|| actor_swarm(&hist, &topo)) {
+                    Err(p) => report.violation("no_panic", json!({"actor_held": true}), case, format!("panic: {p}"), ordinal),
+                    Ok(bad) => {
+                        for (o, w, d) in bad {
+                            report.violation(o, w, case.clone(), d, ordinal);
+                        }
+                    }
+                }
+            }
+        });
+    }
+}
+
 fn run(ctx: &Ctx, report: &mut Report) {
     crate::util::silence_panics();
+    run_actor_swarm(ctx, report);
     let all = [Op::InsA, Op::InsAb, Op::InsRoot, Op::DelA];
     let two_ops = [Op::InsAb, Op::DelA];
     if ctx.quick() {
@@ -461,6 +636,17 @@ fn run(ctx: &Ctx, report: &mut Report) {
 }
 
 fn replay(case: &Value) -> anyhow::Result<(bool, String)> {
+    if let Some(c) = case.get("actor_held") {
+        let hist: Vec<HEv> = serde_json::from_value(c["hist"].clone())?;
+        let topo: Vec<(u8, u8)> = serde_json::from_value(c["topology"].clone())?;
+        return match catch(|| actor_swarm(&hist, &topo)) {
+            Err(p) => Ok((true, format!("panic: {p}"))),
+            Ok(bad) => {
+                let out: String = bad.iter().map(|(o, _, d)| format!("FAILED {o}: {d}\n")).collect();
+                Ok((!bad.is_empty(), format!("actor-held swarm, history {hist:?}, closing along {topo:?}\n{out}")))
+            }
+        };
+    }
     let n = case["n"].as_u64().unwrap_or(2) as u8;
     let hist: Vec<Ev> = serde_json::from_value(case["hist"].clone())?;
     let mut out = format!("N={n} history {hist:?}\n");
